@@ -357,7 +357,8 @@ def history_battery(p: DPoint, max_events=5):
     tried = 0
     # a history: after defining the first j classes deserialize some tags, then define the rest, deserialize all
     for j in range(0, n + 1):
-        for first_tags in itertools.chain([()], itertools.combinations(range(j), 1), itertools.combinations(range(j), 2)):
+        # (tags of classes that are not defined yet are asked for as well: the documented error now, the class once it exists)
+        for first_tags in itertools.chain([()], itertools.combinations(range(n), 1), itertools.combinations(range(n), 2)):
             tried += 1
             src = hierarchy_source(dataclasses.replace(p, shape="__none__")) if False else None
             res = _run_history(p, order, untagged, j, first_tags)
@@ -827,13 +828,16 @@ class Base(MIXF):
 @dataclass
 class S1(Base):
     kind: str = "s1"
-    a: bytes = b""
+    a: int = 0
+@dataclass
+class Outer(MIXF):
+    b: Base
 '''
 FMT_LATE = '''
 @dataclass
 class S2(S1):
     kind: str = "s2"
-    b: bytes = b""
+    b: int = 0
 '''
 FMT_MIXINS = {"orjson": ("mashumaro.mixins.orjson", "DataClassORJSONMixin", "from_json", "to_jsonb"),
               "msgpack": ("mashumaro.mixins.msgpack", "DataClassMessagePackMixin", "from_msgpack", "to_msgpack"),
@@ -848,9 +852,17 @@ def format_registry_task(payload):
     src = g4.PRELUDE + FMT_SRC.format(mod=modname, mix=mix)
     mod, recs0 = build.build_module(src)
     try:
-        s1 = mod.S1("s1", b"x")
+        s1 = mod.S1("s1", 5)
+        import msgpack as _mp
+        import orjson as _oj
+        import tomli_w as _tw
+
+        raw = {"orjson": _oj.dumps, "msgpack": _mp.packb, "toml": _tw.dumps}[fmt]
         mod.Base.from_dict(s1.to_dict())
         getattr(mod.Base, from_m)(getattr(s1, to_m)())
+        # the base used as a field of another class of the format: the nested (dict-form) unit of the format is built too
+        # (the document is written by hand: Outer(s1).to_<format>() is the recorded subclass-instance finding)
+        getattr(mod.Outer, from_m)(raw({"b": {"kind": "s1", "a": 5}}))
         recs = [r for r in harvest.RECORDER.records if recs0 and r.seq >= recs0[0].seq]
         uses = {}
         nfn = 0
@@ -869,13 +881,19 @@ def format_registry_task(payload):
         hist = []
         try:
             exec(compile(FMT_LATE, "<late>", "exec"), vars(mod))
-            s2 = mod.S2("s2", b"x", b"y")
+            s2 = mod.S2("s2", 5, 6)
             back = mod.Base.from_dict(s2.to_dict())
             if back != s2:
                 hist.append(f"Base.from_dict -> {back!r}")
             back = getattr(mod.Base, from_m)(getattr(s2, to_m)())
             if back != s2 or type(back) is not mod.S2:
                 hist.append(f"after Base.from_dict registered the later class S2, Base.{from_m}(S2 document) -> {back!r}, expected {s2!r}")
+            try:
+                back = getattr(mod.Outer, from_m)(raw({"b": {"kind": "s2", "a": 5, "b": 6}}))
+                if back != mod.Outer(s2) or type(back.b) is not mod.S2:
+                    hist.append(f"after Base.from_dict registered S2, Outer.{from_m}(document holding an S2) -> {back!r}")
+            except Exception as e:  # noqa
+                hist.append(f"after Base.from_dict registered S2, Outer.{from_m}(document holding an S2) raised {type(e).__name__}: {str(e)[:120]}")
         except Exception as e:  # noqa
             hist.append(f"history raised {type(e).__name__}: {str(e)[:200]}")
         w = {"confirmed": True, "source": src + FMT_LATE, "input": f"Base.from_dict(S1 doc); Base.{from_m}(S1 doc); define S2(S1); Base.from_dict(S2 doc); Base.{from_m}(S2 doc)", "why": hist[0]} if hist else None
